@@ -26,3 +26,17 @@ From RS Require Import Schedule SchedInv SchedStruct PipelineSched PipelineSched
 Theorem C01_pipeline_result_valid : forall i perm nw, load i perm = Ok nw -> stmt_pipeline_valid nw.
 Proof. exact pipeline_valid_loaded. Qed.
 Print Assumptions C01_pipeline_result_valid.
+
+(** the JSON rendered from a schedule with valid tours and exact listings passes check_C01 — for every loaded network
+    (Render.v = schedule_to_json is compared with the returned JSON on every run); for arbitrary network RECORDS the
+    statement needs a consistent depot table and is refuted without *)
+From RS Require Import Render RenderStmts RenderFacts1.
+Theorem C01_rendered_itineraries_valid : forall i perm nw, load i perm = Ok nw -> stmt_render_C01 nw.
+Proof. exact render_C01_loaded. Qed.
+Print Assumptions C01_rendered_itineraries_valid.
+Theorem C01_rendering_total : forall nw, stmt_render_total nw.
+Proof. exact render_total. Qed.
+Print Assumptions C01_rendering_total.
+Theorem C01_rendered_unrestricted_refuted : ~ (forall nw, stmt_render_C01 nw).
+Proof. exact render_C01_refuted. Qed.
+Print Assumptions C01_rendered_unrestricted_refuted.
